@@ -537,4 +537,26 @@ theorem C05_canon (q : StoreQuirks) (hq : q.stale = false) (order : List Nat)
     (hrun : persistReload q order unmap via h roots = some (rs', h', db)) : canon h' rs' = canon h roots :=
   (Iso_canon_eq (C05_persist_reload q hq order unmap via h roots rs' h' db hrt hno hdup hrun)).symm
 
+/-! ## After the repair of F-C05-1 (`492980c`): the code as it is -/
+
+/-- **C05_persist_reload_current.** The code as it is (`StoreQuirks.asIs`: `remote_side` generated, `from_dao` repaired):
+`to_dao` → flush in ANY processing order of the unit of work → load through any DAO class of the chain → `from_dao` is
+isomorphic to the input for every finite object graph in which no collection holds an object twice (F-C05-3, the one
+remaining trigger) — references into the own table hierarchy included, no hypothesis about them is left. -/
+theorem C05_persist_reload_current (order : List Nat)
+    (unmap : Label → Option Label) (via : Nat) (h : Heap) (roots rs' : List Nat) (h' : Heap) (db : DB)
+    (hrt : RoundTrips unmap h)
+    (hdup : ∀ droots st, toDao h roots = some (droots, st) → NoDup st.out)
+    (hrun : persistReload StoreQuirks.asIs order unmap via h roots = some (rs', h', db)) : Iso h roots h' rs' :=
+  C05_persist_reload StoreQuirks.asIs rfl order unmap via h roots rs' h' db hrt
+    (fun _ _ _ => fun _ _ _ _ _ => rfl) (fun _ => hdup) hrun
+
+/-- **C05_canon_current.** What the driver prints (graph part) for the code as it is. -/
+theorem C05_canon_current (order : List Nat)
+    (unmap : Label → Option Label) (via : Nat) (h : Heap) (roots rs' : List Nat) (h' : Heap) (db : DB)
+    (hrt : RoundTrips unmap h)
+    (hdup : ∀ droots st, toDao h roots = some (droots, st) → NoDup st.out)
+    (hrun : persistReload StoreQuirks.asIs order unmap via h roots = some (rs', h', db)) : canon h' rs' = canon h roots :=
+  (Iso_canon_eq (C05_persist_reload_current order unmap via h roots rs' h' db hrt hdup hrun)).symm
+
 end KrroodVerif.Dao
